@@ -70,6 +70,46 @@ func Elem(ie *entities.InfoElement, abs []int) (entities.InfoElementWithValue, e
 	return nil, fmt.Errorf("unsupported type %d", ie.DataType)
 }
 
+// Set gives an existing element the abstract value abs through the setter of its type.
+func Set(e entities.InfoElementWithValue, abs []int) {
+	switch e.GetInfoElement().DataType {
+	case entities.OctetArray:
+		e.SetOctetArrayValue(raw(abs))
+	case entities.Unsigned8:
+		e.SetUnsigned8Value(uint8(num(abs)))
+	case entities.Unsigned16:
+		e.SetUnsigned16Value(uint16(num(abs)))
+	case entities.Unsigned32:
+		e.SetUnsigned32Value(uint32(num(abs)))
+	case entities.Unsigned64:
+		e.SetUnsigned64Value(num(abs))
+	case entities.Signed8:
+		e.SetSigned8Value(int8(uint8(num(abs))))
+	case entities.Signed16:
+		e.SetSigned16Value(int16(uint16(num(abs))))
+	case entities.Signed32:
+		e.SetSigned32Value(int32(uint32(num(abs))))
+	case entities.Signed64:
+		e.SetSigned64Value(int64(num(abs)))
+	case entities.Float32:
+		e.SetFloat32Value(math.Float32frombits(uint32(num(abs))))
+	case entities.Float64:
+		e.SetFloat64Value(math.Float64frombits(num(abs)))
+	case entities.Boolean:
+		e.SetBooleanValue(abs[0] == 1)
+	case entities.MacAddress:
+		e.SetMacAddressValue(net.HardwareAddr(raw(abs)))
+	case entities.String:
+		e.SetStringValue(string(raw(abs)))
+	case entities.DateTimeSeconds:
+		e.SetUnsigned32Value(uint32(num(abs)))
+	case entities.DateTimeMilliseconds:
+		e.SetUnsigned64Value(num(abs))
+	case entities.Ipv4Address, entities.Ipv6Address:
+		e.SetIPAddressValue(net.IP(raw(abs)))
+	}
+}
+
 // Supported tells whether the library can encode/decode the element's type.
 func Supported(ie *entities.InfoElement) bool {
 	switch ie.DataType {
